@@ -11,7 +11,8 @@ RULE = ("random well-formed forests (1-3 records, depth <= 5, non-contiguous and
         "line breaks inside entries); flat streams of arbitrary level sequences (00-99, no well-nesting), with unique and with "
         "colliding names, random REDEFINES targets; forests in which data names are repeated under different parents (cousin groups, "
         "elementary items) with REDEFINES inside the later groups, and forests reusing ancestor/sibling names; "
-        "first entry 66/77/88; one stream per known defect trigger. "
+        "first entry 66/77/88; one stream per known defect trigger (for finding 5: clean forests in which one to three elementary "
+        "items or 88 levels carry a VALUE literal with a period followed by a blank). "
         "Non-trivial = more than one entry; distinct = distinct case lines.")
 TRIVIAL_BRANCHES = [0, 10]
 ASSUMPTIONS = [
@@ -32,7 +33,7 @@ def opt(x):
 def intended_entry(n, toks):
     return [f"{n['level']:02d}", n["name"], "FILLER" if (n["name"] is None and n["filler"]) else None, n["redefines"],
             int(n["pic"] is not None), int(n["occurs"] is not None or n["odo"] is not None), " ".join(toks),
-            int(bool(n["indexed_by"]))]
+            int(bool(n["indexed_by"])), n["value"]]
 
 
 def make_case(rng, forest, spelled=True, level_text=None, **popts):
@@ -71,6 +72,14 @@ def flat_forest(rng, n, levels, names, p_redef=0.2, p_pic=0.6, p_occ=0.2, p_fill
             nd["pic"] = nd["usage"] = nd["occurs"] = None
         out.append(nd)
     return out
+
+
+# VALUE literals holding a period that is followed by white space (known finding 5).  Shapes kept apart from the
+# finding's other symptoms, which the judge would report as violations: no blank before the first such period (the
+# words after a blank would be read as further data names), no two adjacent digits after it (they would start a
+# spurious entry), single blanks and no other white space (the compact text is compared; compact_source turns a tab into a blank).
+PERIOD_WS_VALUES = ["'A. B'", "'NO. OF ITEMS'", '"MR. X"', "'END. '", "'. '", "'A. B. C'", "'N.A. ONLY'", "\"DEPT. HEAD'S\"",
+                    "'ST. JOHN''S'", "'X-1. Y'", "'A. '"]
 
 
 HAND = [
@@ -203,6 +212,22 @@ def inputs(ctx):
         f = G.gen_forest(rng, budget=12, p_redefines=0, p_occurs=0.6, indexed_by=True)
         yield "known4_indexed_by", make_case(rng, f, **spelling(rng))
 
+    # ---- known finding 5: a period followed by white space inside a VALUE literal ends the sentence early
+    yield "known5_value_period_ws", make_case(rng, [G.node(1, "R", children=[
+        G.node(5, "FLD-A", pic="X(5)", value="'A. B'"), G.node(5, "FLD-B", pic="X")])], spelled=False)
+    for i in range(60 * scale):
+        f = G.gen_forest(rng, max_depth=rng.choice([2, 3, 4]), budget=rng.choice([6, 15, 30]),
+                         p_redefines=rng.choice([0, 0.15]), p_88=rng.choice([0.15, 0.4]))
+        ents = G.entries(f)
+        elem = [n for n in ents if n["pic"] is not None and n["level"] not in (66, 77, 88)]
+        c88 = [n for n in ents if n["level"] == 88]
+        pool = elem + (c88 if rng.random() < 0.3 else [])
+        if not pool:
+            continue
+        for n in rng.sample(pool, min(len(pool), rng.randint(1, 3))):
+            n["value"] = rng.choice(PERIOD_WS_VALUES)
+        yield "known5_value_period_ws", make_case(rng, f, **spelling(rng))
+
 
 def canon_schema(s):
     """generic serialisation of a schema dict: kind by the keys present, ordered properties"""
@@ -231,7 +256,8 @@ def canon_schema(s):
 def observe(ctx, inp):
     from stingray import cobol_parser as cp
     text = inp["text"]
-    intended = [[S(e[0]), opt(e[1]), opt(e[2]), opt(e[3]), e[4], e[5], S(e[6]), e[7]] for e in inp["entries"]]
+    intended = [[S(e[0]), opt(e[1]), opt(e[2]), opt(e[3]), e[4], e[5], S(e[6]), e[7], opt(e[8] if len(e) > 8 else None)]
+                for e in inp["entries"]]
 
     def sentences():
         out = []
